@@ -55,6 +55,15 @@ func checkBytesRoundTrip(x []byte) []byte {
 		if !bytes.Equal(enc2[:2], pre) || !bytes.Equal(enc2[2:], enc) {
 			run.Violation("EncodeBytes:append", "EncodeBytes(b,x) != b ++ enc(x) for x="+hex(x), hex(x))
 		}
+		// a reused buffer: spare capacity that holds stale non-zero bytes must not leak into the encoding
+		for _, pre := range []int{0, 3} {
+			dirty := bytes.Repeat([]byte{0xAA}, pre+len(enc)+32)
+			enc3 := codec.EncodeBytes(dirty[:pre], x)
+			evals.Add(1)
+			if len(enc3) != pre+len(enc) || !bytes.Equal(enc3[pre:], enc) || !bytes.Equal(enc3[:pre], bytes.Repeat([]byte{0xAA}, pre)) {
+				run.Violation("EncodeBytes:reused-buffer", fmt.Sprintf("EncodeBytes(buf[:%d] with stale spare capacity, %x) = %x, want prefix ++ %x", pre, x, enc3, enc), hex(x))
+			}
+		}
 		if len(enc)%9 != 0 || len(enc) != (len(x)/8+1)*9 {
 			run.Violation("EncodeBytes:length", "unexpected encoded length for x="+hex(x), hex(x))
 		}
@@ -452,6 +461,12 @@ func checkIntRoundTrip(c intCodec, v int64) []byte {
 		if c.fixed > 0 && len(enc) != c.fixed {
 			run.Violation(c.name+":length", fmt.Sprintf("%s(%d) has length %d", c.name, v, len(enc)), v)
 		}
+		{
+			dirty := bytes.Repeat([]byte{0xAA}, 2+len(enc)+16)
+			if e3 := c.enc(dirty[:2], v); len(e3) != 2+len(enc) || !bytes.Equal(e3[2:], enc) {
+				run.Violation(c.name+":reused-buffer", fmt.Sprintf("%s into a reused buffer gives %x, want %x", c.name, e3, enc), v)
+			}
+		}
 		for _, s := range suffixes {
 			in := append(append([]byte{}, enc...), s...)
 			evals.Add(1)
@@ -476,6 +491,12 @@ func checkUintRoundTrip(c uintCodec, v uint64) []byte {
 		}
 		if c.fixed > 0 && len(enc) != c.fixed {
 			run.Violation(c.name+":length", fmt.Sprintf("%s(%d) has length %d", c.name, v, len(enc)), v)
+		}
+		{
+			dirty := bytes.Repeat([]byte{0xAA}, 2+len(enc)+16)
+			if e3 := c.enc(dirty[:2], v); len(e3) != 2+len(enc) || !bytes.Equal(e3[2:], enc) {
+				run.Violation(c.name+":reused-buffer", fmt.Sprintf("%s into a reused buffer gives %x, want %x", c.name, e3, enc), v)
+			}
 		}
 		for _, s := range suffixes {
 			in := append(append([]byte{}, enc...), s...)
